@@ -378,4 +378,90 @@ theorem finalize_shape (R C : Int) (itp : Bool) (T : Int) (rec : BVec) (rx rz : 
 theorem getLast_mem_length (l : List BVec) (hne : l ≠ []) (k : Nat) (h : ∀ v ∈ l, v.length = k) :
     (l.getLast hne).length = k := h _ (List.getLast_mem hne)
 
+/-! ### the stages as functions of the clusters: parities are bits -/
+
+theorem tparity_le_one (T a b : Int) (v : Nat) (h : tparity T a b = some v) : v ≤ 1 := by
+  unfold tparity at h
+  split at h
+  · cases h
+  · simp only [] at h
+    split at h <;> (injection h with h; omega)
+
+theorem foldlM_option_invariant {α β : Type} (f : β → α → Option β) (P : β → Prop)
+    (hstep : ∀ b a b', P b → f b a = some b' → P b') :
+    ∀ (l : List α) (b b' : β), P b → l.foldlM f b = some b' → P b' := by
+  intro l
+  induction l with
+  | nil => intro b b' hb h; simp at h; subst h; exact hb
+  | cons a l ih =>
+    intro b b' hb h
+    rw [List.foldlM_cons] at h
+    cases hfa : f b a with
+    | none => rw [hfa] at h; simp at h
+    | some b1 =>
+      rw [hfa] at h
+      exact ih b1 b' (hstep b a b1 hb hfa) (by simpa using h)
+
+theorem fusePair_bit (R C T : Int) (acc : BVec × Nat) (ab : TIdx × TIdx) (out : BVec × Nat)
+    (hacc : acc.2 ≤ 1) (h : fusePair R C T acc ab = some out) : out.2 ≤ 1 := by
+  unfold fusePair at h
+  split at h
+  · next v tp _ htp =>
+    injection h with h; subst h
+    exact xor_le_one _ _ hacc (tparity_le_one _ _ _ _ htp)
+  · cases h
+
+theorem fusePairs_bit (R C T : Int) (l : List (TIdx × TIdx)) (acc out : BVec × Nat)
+    (hacc : acc.2 ≤ 1) (h : l.foldlM (fusePair R C T) acc = some out) : out.2 ≤ 1 :=
+  foldlM_option_invariant (fusePair R C T) (fun p => p.2 ≤ 1)
+    (fun b a b' hb hf => fusePair_bit R C T b a b' hb hf) l acc out hacc h
+
+theorem recoveryTparities_bits (R C T : Int) (cl : List (List TIdx)) (st : Stage)
+    (h : recoveryTparities R C T cl = some st) : st.x ≤ 1 ∧ st.z ≤ 1 := by
+  unfold recoveryTparities at h
+  refine foldlM_option_invariant _ (fun s : Stage => s.x ≤ 1 ∧ s.z ≤ 1) ?_ cl _ st (by simp) h
+  intro b a b' hb hf
+  simp only [Option.bind_eq_bind, Option.pure_def] at hf
+  cases h1 : clusterToPathsAndDefect a with
+  | none => rw [h1] at hf; simp at hf
+  | some t =>
+    obtain ⟨xp, zp, d⟩ := t
+    rw [h1] at hf
+    simp only [Option.bind_some] at hf
+    cases h2 : (pairUp xp).foldlM (fusePair R C T) (b.op, b.x) with
+    | none => rw [h2] at hf; simp at hf
+    | some r1 =>
+      obtain ⟨v1, tx⟩ := r1
+      rw [h2] at hf
+      simp only [Option.bind_some] at hf
+      cases h3 : (pairUp zp).foldlM (fusePair R C T) (v1, b.z) with
+      | none => rw [h3] at hf; simp at hf
+      | some r2 =>
+        obtain ⟨v2, tz⟩ := r2
+        rw [h3] at hf
+        simp only [Option.bind_some, Option.some.injEq] at hf
+        subst hf
+        exact ⟨fusePairs_bit R C T _ _ _ hb.1 h2, fusePairs_bit R C T _ _ _ hb.2 h3⟩
+
+theorem clusterRecoveryTparities_bits (R C T : Int) (ms : List ((TIdx × TIdx) × (TIdx × TIdx))) (st : Stage)
+    (h : clusterRecoveryTparities R C T ms = some st) : st.x ≤ 1 ∧ st.z ≤ 1 := by
+  unfold clusterRecoveryTparities at h
+  refine foldlM_option_invariant _ (fun s : Stage => s.x ≤ 1 ∧ s.z ≤ 1) ?_ ms _ st (by simp) h
+  intro b a b' hb hf
+  simp only [Option.bind_eq_bind, Option.pure_def] at hf
+  cases h2 : fusePair R C T (b.op, b.x) (a.1.1, a.2.1) with
+  | none => rw [h2] at hf; simp at hf
+  | some r1 =>
+    obtain ⟨v1, tx⟩ := r1
+    rw [h2] at hf
+    simp only [Option.bind_some] at hf
+    cases h3 : fusePair R C T (v1, b.z) (a.1.2, a.2.2) with
+    | none => rw [h3] at hf; simp at hf
+    | some r2 =>
+      obtain ⟨v2, tz⟩ := r2
+      rw [h3] at hf
+      simp only [Option.bind_some, Option.some.injEq] at hf
+      subst hf
+      exact ⟨fusePair_bit R C T _ _ _ hb.1 h2, fusePair_bit R C T _ _ _ hb.2 h3⟩
+
 end Qec.Ftp
